@@ -1,16 +1,17 @@
 #!/bin/bash
 # usage: tools/try_patch.sh <patch.diff> <check id>...   -- apply a patch to a fresh scratch worktree of /repo HEAD,
-# run the quick tier of the given checks against it, remove the worktree. Evidence files are restored afterwards.
+# run the quick tier of the given checks against it, remove the worktree. Evidence and replay files of the drill go to a
+# scratch directory (HVMON_EVIDENCE_DIR), never to /verif/evidence.
 patch="$(readlink -f "$1")"; shift
 cd "$(dirname "$0")/.."
 wt=$(mktemp -d /tmp/hvmon-wt-XXXXXX); rmdir "$wt"
 git -C /repo worktree add -q --detach "$wt" HEAD || exit 3
 ( cd "$wt" && git apply "$patch" ) || { echo "PATCH DOES NOT APPLY"; git -C /repo worktree remove --force "$wt"; exit 3; }
-mkdir -p /tmp/hvmon-evid-bak && cp -a evidence/*.json /tmp/hvmon-evid-bak/ 2>/dev/null
+evd=$(mktemp -d /tmp/hvmon-drill-evid-XXXXXX)
 for c in "$@"; do
-  out=$(tools/with_tree.sh "$wt" "$c" ${TIER:-quick} 2>&1); rc=$?
+  out=$(HVMON_EVIDENCE_DIR="$evd" tools/with_tree.sh "$wt" "$c" ${TIER:-quick} 2>&1); rc=$?
   echo "[$c rc=$rc] $(echo "$out" | grep -E "^$c " | head -1)"
   echo "$out" | grep -E "kinds|first:|INCONCLUSIVE" | head -3
 done
-cp -a /tmp/hvmon-evid-bak/*.json evidence/ 2>/dev/null; rm -rf /tmp/hvmon-evid-bak
+[ -n "$KEEP_EVID" ] && echo "drill evidence kept in $evd" || rm -rf "$evd"
 git -C /repo worktree remove --force "$wt"
